@@ -39,6 +39,9 @@ mod lmdb;
 pub use lmdb::IndexStats;
 use lmdb::Lmdb;
 
+#[cfg(feature = "verif")]
+pub mod verif;
+
 pub use heed;
 
 use crate::heed::types::Bytes;
@@ -82,6 +85,9 @@ impl Store {
     ) -> Result<Store, Error> {
         let dir = directory.as_ref().to_owned();
 
+        #[cfg(feature = "verif")]
+        verif::point("new:start");
+
         // Create the directory if it doesn't exist, ignoring errors
         let _ = fs::create_dir(&dir);
 
@@ -94,8 +100,15 @@ impl Store {
         // Create the lmdb subdir if it doesn't exist, ignoring errors
         let _ = fs::create_dir(&indexes_path);
 
+        #[cfg(feature = "verif")]
+        verif::point("new:dirs");
+
         let events = EventStore::new(&events_path)?;
+        #[cfg(feature = "verif")]
+        verif::point("new:events");
         let indexes = Lmdb::new(&indexes_path, &extra_table_names)?;
+        #[cfg(feature = "verif")]
+        verif::point("new:lmdb");
 
         Ok(Store {
             events,
@@ -286,6 +299,8 @@ impl Store {
         // TBD: should we validate the event?
 
         let mut txn = self.indexes.write_txn()?;
+        #[cfg(feature = "verif")]
+        verif::point("store:txn");
 
         // Return Duplicate if it already exists
         if self.indexes.get_offset_by_id(&txn, event.id())?.is_some() {
@@ -332,6 +347,9 @@ impl Store {
             }
         }
 
+        #[cfg(feature = "verif")]
+        verif::point("store:checked");
+
         // Pre-remove replaceable events being replaced
         {
             if event.kind().is_replaceable() {
@@ -377,20 +395,33 @@ impl Store {
             }
         }
 
+        #[cfg(feature = "verif")]
+        verif::point("store:preremoved");
+
         // Store the event
         let offset = self.events.store_event(event)? as u64;
+        #[cfg(feature = "verif")]
+        verif::point("store:appended");
 
         // Index the event
         if !event.kind().is_ephemeral() {
             self.indexes.index(&mut txn, event, offset)?;
         }
 
+        #[cfg(feature = "verif")]
+        verif::point("store:indexed");
+
         // Handle deletion events
         if event.kind() == 5.into() {
             self.handle_deletion_event(&mut txn, event)?;
         }
 
+        #[cfg(feature = "verif")]
+        verif::point("store:before_commit");
+
         txn.commit()?;
+        #[cfg(feature = "verif")]
+        verif::point("store:committed");
 
         Ok(offset)
     }
@@ -932,8 +963,14 @@ impl Store {
     /// This removes an event without marking it as having been deleted by another event
     pub fn remove_event(&self, id: Id) -> Result<(), Error> {
         let mut txn = self.indexes.write_txn()?;
+        #[cfg(feature = "verif")]
+        verif::point("remove:txn");
         self.remove_by_id(&mut txn, id)?;
+        #[cfg(feature = "verif")]
+        verif::point("remove:before_commit");
         txn.commit()?;
+        #[cfg(feature = "verif")]
+        verif::point("remove:committed");
         Ok(())
     }
 
@@ -1033,6 +1070,8 @@ impl Store {
         let (authored_events, _redacted) =
             self.find_events(&filter, true, 0, 0, |_| ScreenResult::Match)?;
         for event in authored_events.iter() {
+            #[cfg(feature = "verif")]
+            verif::point("vanish:next");
             self.remove_event(event.id())?;
         }
 
@@ -1042,6 +1081,8 @@ impl Store {
         let (giftwrap_events, _redacted) =
             self.find_events(&filter, true, 0, 0, |_| ScreenResult::Match)?;
         for event in giftwrap_events.iter() {
+            #[cfg(feature = "verif")]
+            verif::point("vanish:next");
             self.remove_event(event.id())?;
         }
 
